@@ -480,16 +480,18 @@ Proof.
 Qed.
 
 Lemma write_vals_err size vals : forall m a ln e,
+  0 <= a -> a + Z.of_nat (length vals) <= size ->
   toy_write_vals (toy_memcfg size) m a vals ln = PErr e ->
-  (exists x, e = PMemAddr x) \/ (e = PUncaught ln /\ exists lit, In lit vals /\ long_decimal lit).
+  e = PUncaught ln /\ exists lit, In lit vals /\ long_decimal lit.
 Proof.
-  induction vals as [|v t IH]; intros m a ln e H; [discriminate H|].
+  induction vals as [|v t IH]; intros m a ln e Ha Hb H; [discriminate H|].
+  cbn [length] in Hb.
   cbn [toy_write_vals] in H. destruct (toy_value v) as [z|] eqn:Ev.
-  - rewrite toy_mem_write in H. destruct ((0 <=? a) && (a <? size)) eqn:Er.
-    + destruct (IH _ _ _ _ H) as [Hl|[He [lit [Hin Hlong]]]]; [left; exact Hl|].
-      right; split; [exact He|]. exists lit; split; [right; exact Hin | exact Hlong].
-    + injection H as <-. left; eexists; reflexivity.
-  - injection H as <-. right; split; [reflexivity|]. exists v; split; [left; reflexivity|].
+  - rewrite toy_mem_write in H. destruct ((0 <=? a) && (a <? size)) eqn:Er; [|lia].
+    assert (Ha1: 0 <= a + 1) by lia. assert (Hb1: a + 1 + Z.of_nat (length t) <= size) by lia.
+    destruct (IH _ _ _ _ Ha1 Hb1 H) as [He [lit [Hin Hlong]]].
+    split; [exact He|]. exists lit; split; [right; exact Hin | exact Hlong].
+  - injection H as <-. split; [reflexivity|]. exists v; split; [left; reflexivity|].
     apply toy_value_none_iff; exact Ev.
 Qed.
 
@@ -559,18 +561,19 @@ Proof.
       split; [exact IHlab | exact IHcells].
 Qed.
 
-Definition err_ok (l : list (Z * tline)) (e : perr) : Prop :=
+Definition err_ok (size : Z) (l : list (Z * tline)) (e : perr) : Prop :=
   match e with
   | PSyntax _ | POdd _ | PVariable _ | PDataDup _ => False
   | PLabel ln | PDupLabel ln | PDirective ln | PDataSyntax ln => In ln (map fst l)
-  | PMemSize _ | PMemAddr _ => True
+  | PMemSize w => w = size
+  | PMemAddr _ => False
   | PUncaught ln =>
       exists x, In (ln, x) l /\
         ((exists lit, In lit (line_literals x) /\ long_decimal lit) \/
          (exists inl op, x = TLInstr inl op TNoOperand /\ is_address_type op = true))
   end.
 
-Lemma err_ok_incl l l' e : incl l l' -> err_ok l e -> err_ok l' e.
+Lemma err_ok_incl size l l' e : incl l l' -> err_ok size l e -> err_ok size l' e.
 Proof.
   intros Hi. assert (Hm: forall ln, In ln (map fst l) -> In ln (map fst l')).
   { intros ln Hin. apply in_map_iff in Hin as [[k x] [Hk Hin]]. apply in_map_iff.
@@ -579,27 +582,29 @@ Proof.
   intros [x [Hin Hx]]. exists x; split; [apply Hi; exact Hin | exact Hx].
 Qed.
 
-Lemma err_ok_cons p l e : err_ok l e -> err_ok (p :: l) e.
+Lemma err_ok_cons size p l e : err_ok size l e -> err_ok size (p :: l) e.
 Proof. apply err_ok_incl. intros x Hx; right; exact Hx. Qed.
 
-Lemma write_data_err size data : forall last labels m e,
-  toy_write_data (toy_memcfg size) data last labels m = PErr e -> err_ok data e.
+Lemma write_data_err size data : forall last labels m e, last <= size - 1 ->
+  toy_write_data (toy_memcfg size) data last labels m = PErr e -> err_ok size data e.
 Proof.
-  induction data as [|[ln0 x0] t IH]; intros last labels m e H; [discriminate H|].
+  induction data as [|[ln0 x0] t IH]; intros last labels m e Hlast H; [discriminate H|].
   cbn [toy_write_data] in H.
   destruct x0 as [d|name0 vals0|inl op opnd|name0];
     try (injection H as <-; cbn [err_ok map fst]; left; reflexivity).
   destruct (last - Z.of_nat (length vals0) + 1 <? 0) eqn:Eneg.
-  { injection H as <-. exact Logic.I. }
+  { injection H as <-. reflexivity. }
   destruct (add_label labels name0 (last - Z.of_nat (length vals0) + 1) ln0) as [lb1|e1] eqn:Ea.
   2:{ injection H as <-. apply add_label_err in Ea; subst e1. cbn [err_ok map fst]. left; reflexivity. }
   destruct (toy_write_vals (toy_memcfg size) m (last - Z.of_nat (length vals0) + 1) vals0 ln0)
     as [m1|e1] eqn:Ew.
-  - apply err_ok_cons. eapply IH; exact H.
-  - injection H as <-. destruct (write_vals_err _ _ _ _ _ _ Ew) as [[x ->]|[-> [lit [Hin Hlong]]]].
-    + exact Logic.I.
-    + cbn [err_ok]. exists (TLVar name0 vals0). split; [left; reflexivity|]. left.
-      exists lit; split; [exact Hin | exact Hlong].
+  - apply err_ok_cons. eapply (IH (last - Z.of_nat (length vals0))); [lia | exact H].
+  - injection H as <-.
+    assert (Ha1: 0 <= last - Z.of_nat (length vals0) + 1) by lia.
+    assert (Hb1: last - Z.of_nat (length vals0) + 1 + Z.of_nat (length vals0) <= size) by lia.
+    destruct (write_vals_err _ _ _ _ _ _ Ha1 Hb1 Ew) as [-> [lit [Hin Hlong]]].
+    cbn [err_ok]. exists (TLVar name0 vals0). split; [left; reflexivity|]. left.
+    exists lit; split; [exact Hin | exact Hlong].
 Qed.
 
 Lemma write_data_erase c l : forall l' last lb m r, map snd l = map snd l' ->
@@ -676,7 +681,8 @@ Proof.
     + apply (G ins H); [intros; discriminate | reflexivity | intros; discriminate].
 Qed.
 
-Lemma instantiate_err text : forall labels e, toy_instantiate text labels = PErr e -> err_ok text e.
+Lemma instantiate_err size text : forall labels e,
+  toy_instantiate text labels = PErr e -> err_ok size text e.
 Proof.
   induction text as [|[ln0 x0] t IH]; intros labels e H; [discriminate H|].
   cbn [toy_instantiate] in H.
@@ -741,14 +747,14 @@ Proof.
     + intros k Hk. rewrite IHf by lia. apply mget_mset_neq. lia.
 Qed.
 
-Lemma write_instrs_err size l : forall m a e,
-  toy_write_instrs (toy_memcfg size) m a l = PErr e -> exists x, e = PMemAddr x.
+Lemma write_instrs_err size l : forall m a e, 0 <= a -> a + Z.of_nat (length l) <= size ->
+  toy_write_instrs (toy_memcfg size) m a l = PErr e -> False.
 Proof.
-  induction l as [|i t IH]; intros m a e H; [discriminate H|].
+  induction l as [|i t IH]; intros m a e Ha Hb H; [discriminate H|].
+  cbn [length] in Hb.
   cbn [toy_write_instrs] in H. rewrite toy_mem_write in H.
-  destruct ((0 <=? a) && (a <? size)) eqn:Er.
-  - eapply IH; exact H.
-  - injection H as <-. eexists; reflexivity.
+  destruct ((0 <=? a) && (a <? size)) eqn:Er; [|lia].
+  eapply (IH _ (a + 1)); [| |exact H]; lia.
 Qed.
 
 (** ** _segment *)
@@ -867,7 +873,7 @@ Proof.
     intros H. eapply segment_loop_ok_incl; eassumption.
 Qed.
 
-Lemma segment_err toks e : segment tdir_of toks = PErr e -> err_ok toks e.
+Lemma segment_err size toks e : segment tdir_of toks = PErr e -> err_ok size toks e.
 Proof.
   destruct toks as [|p t]; [discriminate|].
   destruct (segment_unfold p t) as [de [te [d0 [t0 [-> _]]]]].
@@ -1071,7 +1077,7 @@ Proof.
     rewrite Hwi. reflexivity.
 Qed.
 
-Lemma toy_load_err s toks s' e : toy_load s toks = (s', Some e) -> err_ok toks e.
+Lemma toy_load_err s toks s' e : toy_load s toks = (s', Some e) -> err_ok (t_size s) toks e.
 Proof.
   rewrite toy_load_unfold. cbv zeta.
   destruct (segment tdir_of toks) as [[d t]|e1] eqn:Es.
@@ -1082,20 +1088,25 @@ Proof.
       exact Hin. }
   destruct (toy_write_data (toy_memcfg (t_size s)) d (t_size s - 1) lb0 [])
     as [[[last lb] m]|e1] eqn:Ew.
-  2:{ intros H; injection H as _ <-. eapply err_ok_incl; [exact Hd|]. eapply write_data_err; exact Ew. }
+  2:{ intros H; injection H as _ <-. eapply err_ok_incl; [exact Hd|].
+      eapply write_data_err; [|exact Ew]. lia. }
   destruct (toy_instantiate t lb) as [r|e1] eqn:Ei.
   2:{ intros H; injection H as _ <-. eapply err_ok_incl; [exact Ht|]. eapply instantiate_err; exact Ei. }
   destruct (Z.of_nat (length r) - 1 >? last) eqn:Eg.
-  { intros H; injection H as _ <-. exact Logic.I. }
+  { intros H; injection H as _ <-. reflexivity. }
   destruct (toy_write_instrs (toy_memcfg (t_size s)) m 0 r) as [m'|e1] eqn:Ewi; [discriminate|].
-  intros H; injection H as _ <-. destruct (write_instrs_err _ _ _ _ _ Ewi) as [x ->]. exact Logic.I.
+  intros _. exfalso. destruct (write_data_spec _ _ _ _ _ _ _ _ Ew) as [Dl _].
+  assert (Ha1: 0 <= 0) by lia.
+  assert (Hb1: 0 + Z.of_nat (length r) <= t_size s) by lia.
+  exact (write_instrs_err _ _ _ _ _ Ha1 Hb1 Ewi).
 Qed.
 
 (** * 6. Error typing *)
 
 Lemma toy_load_outcomes_lem : forall s toks s' e, toy_load s toks = (s', Some e) ->
   (forall ln, perr_line e = Some ln -> In ln (map fst toks)) /\
-  (match e with PSyntax _ | POdd _ | PVariable _ | PDataDup _ => False | _ => True end) /\
+  (match e with PSyntax _ | POdd _ | PVariable _ | PDataDup _ | PMemAddr _ => False
+           | PMemSize w => w = t_size s | _ => True end) /\
   (forall ln, e = PUncaught ln -> tokens_wf toks ->
      exists x lit, In (ln, x) toks /\ In lit (line_literals x) /\ long_decimal lit).
 Proof.
@@ -1106,7 +1117,7 @@ Proof.
   - intros ln Hl. destruct e; cbn [perr_line] in Hl; try discriminate Hl;
       injection Hl as <-; cbn [err_ok] in H; try contradiction; try exact H.
     destruct H as [x [Hin _]]. eapply Hfst; exact Hin.
-  - destruct e; cbn [err_ok] in H; try contradiction; exact Logic.I.
+  - destruct e; cbn [err_ok] in H; try contradiction; try exact Logic.I. exact H.
   - intros ln -> Hwf. cbn [err_ok] in H. destruct H as [x [Hin [[lit [Hl Hlong]]|[inl [op [-> Hat]]]]]].
     + exists x, lit. split; [exact Hin | split; [exact Hl | exact Hlong]].
     + rewrite (Hwf _ _ _ Hin) in Hat. discriminate Hat.
